@@ -7,12 +7,18 @@
    Proved here for ALL flat statements (any number of elements, any mix of > + ^ runs) at the
    level where the tree is built -- the parser's statements() loop -- against a depth-counter
    spec; the implicit-name rule is proved over the table regenerated from the source.
-   _partial: groups (nested statements()), the unrolling of repeaters (C02) and the formatter's
-   tag events are covered by the model/implementation correspondence and the denotation
-   oracle, not by a theorem yet. *)
+   C01_parse_groups extends this to statements with parenthesised groups `( ... )`, optionally
+   repeated, nested to any depth (mutual induction over statements and units); C01_convert_shape
+   gives the depth list and the number of elements of the unrolled forest (the copy/budget details
+   are C02: C02_limit_full, C02_convert_count).
+   _partial: the formatter's tag events (every node of the final tree printed once, in order) are
+   covered by the model/implementation correspondence and the denotation oracle, not by a
+   theorem yet; element blocks are required to satisfy [block_ok]/[gblock_ok] (proved for bare
+   names; attributes/text blocks are C03/C04's concern). *)
 From Coq Require Import String.
 From Emmet Require Import lib.Base lib.StrLit model.MarkupTokenizer model.MarkupParser model.MarkupConvert
-     model.MarkupResolve proofs.ParserSpine proofs.ImplicitProofs.
+     model.MarkupResolve proofs.ParserSpine proofs.ParserGroups proofs.ImplicitProofs
+     proofs.ConvertProofs proofs.ConvertShape.
 
 (* the preorder depth list of the parsed tree is the one the operators denote:
    `>` nests, `+` keeps the level, each `^` moves one level up and stops at the top *)
@@ -22,6 +28,49 @@ Theorem C01_parse_denote_partial :
     exists els, parse jsx toks = POk els /\ preL 0 els = denote 0 xs.
 Proof. exact parse_flat_denote. Qed.
 Print Assumptions C01_parse_denote_partial.
+
+(* the same with groups.  Syntax: a statement is a list of (unit, operator after it); a unit is an
+   element or a group (statement, optional repeater).  Spec [denoteG off d xs]: the list of marks --
+   element with its depth, or an opening/closing bracket pair around a group's contents, the
+   repeater on the closing one -- where `>` nests, `+` keeps the level, each `^` moves one level up and
+   stops at the top of the group (or of the abbreviation), and a group is one unit for what follows
+   it.  [preML] is the same list read off the token tree; it determines the tree. *)
+Theorem C01_parse_groups :
+  forall (jsx : bool) (xs : gstmt) (toks : list token),
+    gflat jsx xs toks ->
+    exists els, parse jsx toks = POk els /\ preML 0 els = denoteG 0 0 xs.
+Proof. exact parse_group_denote. Qed.
+Print Assumptions C01_parse_groups.
+
+Theorem C01_name_is_gblock :
+  forall (t : token) (v : str), tk t = TLiteral v ->
+    gblock_ok false [t] (mkLeaf (Some [t]) None None None false).
+Proof. exact gblock_name. Qed.
+Print Assumptions C01_name_is_gblock.
+
+(* ... and by a name followed by a repeater `*N`: the element carries that repeater *)
+Theorem C01_name_rep_is_gblock :
+  forall (t tr : token) (v : str) (rp : rep), tk t = TLiteral v -> rep_of tr = Some rp ->
+    gblock_ok false [t; tr] (mkLeaf (Some [t]) None None (Some rp) false).
+Proof. exact gblock_name_rep. Qed.
+Print Assumptions C01_name_rep_is_gblock.
+
+(* convert_shape: unrolling preserves the relative order of the written elements and multiplies
+   them by the repeat counts.  For every token tree without `$#` / implicit `*` and a budget that
+   does not cut (C02 treats the cut): the converter's forest has the depth list [shape] -- each unit
+   contributes, once per copy and in order, its element at its depth followed by its children one
+   level deeper, a group contributes its contents at its own depth -- and its number of elements
+   is [size]: every written element times the repeat counts of the repeated units around it. *)
+Theorem C01_convert_shape :
+  forall (env : cenv) (max_repeat : option N) (root : list tnode),
+    ce_text env = WNone -> forallb clean_node root = true ->
+    (total_list root <= budget_of max_repeat)%Z ->
+    exists forest,
+      convert env max_repeat root = Ok forest /\
+      apreL 0 forest = flat_map (shape env [] 0) root /\
+      asizeL forest = list_sum (map size root).
+Proof. exact convert_shape_model. Qed.
+Print Assumptions C01_convert_shape.
 
 (* the hypothesis [block_ok] of [flat] is met by elements written as a bare name *)
 Theorem C01_name_is_block :
@@ -60,3 +109,19 @@ Proof.
   apply flat_cons; [eapply block_name; reflexivity|apply ot_climb; [reflexivity|repeat constructor]|].
   apply flat_last. eapply block_name; reflexivity.
 Qed.
+
+(* non-vacuity of C01_parse_groups: "a>(b+c)*2^d" as tokens satisfies [gflat] *)
+Example C01_groups_nonvacuous :
+  let lit c p := mkTok (TLiteral [c]) p (p + 1) in
+  let op o p := mkTok (TOperator o) p (p + 1) in
+  let br o p := mkTok (TBracket o BGroup) p (p + 1) in
+  let lf t := mkLeaf (Some [t]) None None None false in
+  let rp := mkTok (TRepeater 2 0 false) 7 9 in
+  gflat false
+    [(GE (lf (lit 97%N 0)), SChild);
+     (GG [(GE (lf (lit 98%N 3)), SSibling); (GE (lf (lit 99%N 5)), SSibling)] (Some (mkRep 2 0 false)), SClimb 0);
+     (GE (lf (lit 100%N 10)), SSibling)]
+    ([lit 97%N 0] ++ [op OpChild 1] ++
+     (br true 2 :: ([lit 98%N 3] ++ [op OpSibling 4] ++ [lit 99%N 5]) ++ br false 6 :: [rp]) ++ [op OpClimb 9] ++
+     [lit 100%N 10]).
+Proof. exact gflat_example. Qed.
